@@ -673,7 +673,15 @@ pub fn record_pair(path: &str, count: usize, seed: u64) -> u64 {
         };
         let (_, table) = crate::r_mm::ranker(i, &n, seed.wrapping_add(i as u64));
         let ranks: Vec<u8> = table.0.to_vec();
-        let sel = Pair::with_ranker(&n, &table);
+        // a panic of the code under test is data: recorded, decided by the validator (a panicking selection yields no valid pair)
+        let sel = match guard(|| Pair::with_ranker(&n, &table)) {
+            Ok(s) => s,
+            Err(m) => {
+                writeln!(f, "{}", json!({"k": "ranker", "n": n, "rank": ranks, "none": false, "i1": -1, "i2": -1, "fi1": -1, "fi2": -1, "panic": m})).unwrap();
+                nrec += 1;
+                continue;
+            }
+        };
         let (none, i1, i2) = match &sel {
             None => (true, 0i64, 0i64),
             Some(p) => (false, p.index1() as i64, p.index2() as i64),
@@ -698,7 +706,7 @@ pub fn record_pair(path: &str, count: usize, seed: u64) -> u64 {
     for &len in &[0usize, 1, 2, 3, 254, 255, 256, 600] {
         let n = vec![b'x'; len];
         for a in 0..=255u8 {
-            let acc: Vec<u8> = (0..=255u8).filter(|&b| Pair::with_indices(&n, a, b).map_or(false, |p| p.index1() == a && p.index2() == b)).collect();
+            let acc: Vec<u8> = (0..=255u8).filter(|&b| guard(|| Pair::with_indices(&n, a, b).map_or(false, |p| p.index1() == a && p.index2() == b)).unwrap_or(false)).collect();
             writeln!(f, "{}", json!({"k": "indices", "len": len, "a": a, "acc": acc})).unwrap();
             nrec += 1;
         }
